@@ -32,7 +32,13 @@ SITE = MODEL + ":Model._simplify_once"
 
 def _merge_loops(ctx, R):
     """(outer loop over (canonical, aliases), inner loop over alias, name of the canonical's Variable, name of the alias's Variable)"""
-    fn = simplify_fn(ctx, R)
+    # explanatory temporaries for an attribute read (`alias_start = alias_state.start`) are resolved first: the rules ask where an alias's
+    # attribute is read, not under which name
+    key = "c16:simplify_once_resolved"
+    if key not in ctx.cache:
+        from ..pyutil import inline_simple_locals
+        ctx.cache[key] = inline_simple_locals(simplify_fn(ctx, R))
+    fn = ctx.cache[key]
     blk = option_blocks(fn).get("detect_aliases")
     if blk is None:
         raise MechanismMissing(R, "detect_aliases block not found")
